@@ -3,7 +3,7 @@
 # defect in scratch worktrees; meant for `vp run -- tools/seedall.sh` (snapshot of /verif).
 cd "$(dirname "$0")/.."
 P=${1:-4}; shift
-ids="$@"; [ -z "$ids" ] && ids=$(ls seeded | grep -v runs.json)
+ids="$@"; [ -z "$ids" ] && ids=$(ls seeded | grep -E "^C[0-9][0-9]-[a-z]$")
 ./setup.sh > /dev/null 2>&1
 mkdir -p seedout; export SEED_OUT=$PWD/seedout
 echo $ids | tr ' ' '\n' | xargs -P $P -I{} sh -c 'python3 tools/seedrun.py {} > seedout/{}.log 2>&1'
